@@ -71,6 +71,29 @@ static HV check06(const C06Case &c) {
     for (int i = 0; i < c.start; i++) if (buf[i] != before[i]) return bad("prefix-touched", "byte " + std::to_string(i) + " before the starting offset was modified");
     if (rep == 0) first = got; else if (got != first) return bad("not-repeatable", "repetition " + std::to_string(rep) + " differs");
   }
+  // a quarter of the cases also on the library-managed buffer, from an offset far behind its initial length, with the debug listing on and/or
+  // chunk fitting enabled with a chunk size the program never reaches; pieces without any instruction are calls of their own
+  unsigned sel = (unsigned)(c.lines.size() * 7 + c.start + c.combo);
+  if (sel % 4 == 1 && !c.lines.empty()) {
+    bool dbg = (sel >> 2) & 1, fit = (sel >> 3) & 1; if (!dbg && !fit) dbg = fit = true;
+    int saved = -1; if (dbg) { fflush(stdout); saved = dup(1); int nul = open("/dev/null", O_WRONLY); if (nul >= 0) { dup2(nul, 1); close(nul); } }
+    struct Restore { int fd; ~Restore() { if (fd >= 0) { fflush(stdout); dup2(fd, 1); close(fd); } } } restore{saved};
+    int far = 6020 + 980 * (1 + (int)(sel % 5)) + (int)(sel % 7);
+    assemblyline_t a = asm_create_instance(nullptr, 0); if (!a) return bad("harness", "asm_create_instance(NULL) failed");
+    al::apply_opts(a, combo_opts(c.combo), sel); if (fit) asm_set_chunk_size(a, (size_t)1 << 24); if (dbg) asm_set_debug(a, true);
+    asm_set_offset(a, far);
+    const char *NL = c.sep == 1 ? "\r\n" : c.sep == 2 ? "\r" : "\n"; int rc = 0;
+    std::vector<std::string> pieces; pieces.push_back(std::string("; a piece without code") + NL + "start_label:" + NL);
+    { std::vector<int> cuts = c.cuts; std::sort(cuts.begin(), cuts.end()); cuts.push_back((int)c.lines.size()); size_t li = 0; for (int cut : cuts) { std::string chunk; for (; li < (size_t)cut && li < c.lines.size(); li++) chunk += c.lines[li] + NL; if (!chunk.empty()) { pieces.push_back(chunk); if (sel & 16) pieces.push_back(std::string("section .text") + NL); } } }
+    pieces.push_back(std::string(NL) + "; end");
+    for (auto &pc : pieces) { rc = asm_assemble_str(a, pc.c_str()); if (rc != 0) break; }
+    int off = asm_get_offset(a); std::vector<uint8_t> got; if (rc == 0 && off >= far && off - far < (1 << 20)) got.assign((uint8_t *)asm_get_code(a) + far, (uint8_t *)asm_get_code(a) + off);
+    asm_destroy_instance(a);
+    std::string how = std::string("library-managed buffer, start ") + std::to_string(far) + (dbg ? ", debug listing on" : "") + (fit ? ", chunk size 2^24" : "") + ", " + std::to_string(pieces.size()) + " calls (first and last without code): ";
+    if (rc != 0) return bad("rejected", how + "a call failed although every line assembles alone");
+    if (off != far + (int)want.size()) return bad("offset", how + "final offset " + std::to_string(off) + " ; want " + std::to_string(far) + " + " + std::to_string(want.size()));
+    if (got != want) return bad("bytes", how + "code differs from the concatenation of the lines' own code");
+  }
   return v;
 }
 static hz::Failure fail06(const C06Case &c, const HV &v) { hz::Failure f; f.caseid = ser06(c); f.text = join(c.lines, "\\n"); f.symptom = v.symptom; f.detail = v.detail; f.tags = {"mn:program", "form:" + std::to_string(c.lines.size()) + "-lines", "sym:" + v.symptom}; return f; }
